@@ -730,7 +730,7 @@ theorem close_inflight_rough (n : Nat) (s : Sys) (hg : Good iss s) (hf : FInv is
     | some v =>
       have := this (by rw [h]; rfl)
       rw [hst] at this; cases this
-  obtain ⟨ta1, e1, _, e1'⟩ := advanceTime_closedT ta (RTO + 1) (by have := hc.a.tmo; omega) (notw s hg .A ta hsa hc.a.st)
+  obtain ⟨ta1, e1, _, e1', _, _⟩ := advanceTime_closedT ta (RTO + 1) (by have := hc.a.tmo; omega) (notw s hg .A ta hsa hc.a.st)
   obtain ⟨s1, r1, ta1', es1, p1, g1, h1a, h1p, fa⟩ := tick_rough s hg .A ta hsa hc.a
   have es : s.step (.tick .A (RTO + 1)) = .ok (s.setSide .A { s.side .A with tcb := some ta1 }, .tick .Ignore) := by
     simp only [Sys.step, Op.side, hsa, e1]
